@@ -246,9 +246,23 @@ def make_faults():
             return None
         mod, it, impl, m = draw(st.sampled_from(ms))
         mod["items"].append({"kind": "struct", "name": "DvZst", "attrs": [], "out": False, "lifetimes": [], "fields": [], "impls": []})
-        m["params"].insert(0, ["dv_fault", ["struct", "DvZst", []], []])
+        z = ["struct", "DvZst", []]
+        # the zero-sized struct reaches the method directly, inside an Option, as a field of a by-value struct argument, or as
+        # what a callback argument returns
+        where = draw(st.sampled_from(["param", "param", "optparam", "dipoptparam", "field", "cbret"]))
+        ctx = "%s::%s" % (it["name"], m["name"])
+        if where == "param":
+            m["params"].insert(0, ["dv_fault", z, []])
+        elif where in ("optparam", "dipoptparam"):
+            m["params"].insert(0, ["dv_fault", ["opt", z, "std" if where == "optparam" else "dip"], []])
+        elif where == "field":
+            mod["items"].append({"kind": "struct", "name": "DvZstHolder", "attrs": [], "out": False, "lifetimes": [], "fields": [["n", ["prim", "u8"], []], ["z", z, []]], "impls": []})
+            m["params"].insert(0, ["dv_fault", ["struct", "DvZstHolder", []], []])
+            ctx = "DvZstHolder"
+        else:
+            m["params"].insert(0, ["dv_fault", ["cb", [], z, False], []])
         ir.default_order(mod)
-        return ("%s::%s" % (it["name"], m["name"]), 1)
+        return (ctx, 2 if where in ("optparam", "dipoptparam", "cbret") else 1), where
     F.append(("zero-sized-struct-argument", "param", zst_arg))
 
     # elided lifetime in return (one elision source: &self)
